@@ -173,7 +173,36 @@ class Parents:
         return c
 
     def guards(self, n):
-        return [(self.resolve_cond(c), t) for c, t in self._guards(n)]
+        """Conditions known where n executes: enclosing if / ternary / && / || / loop conditions and preceding guard clauses, with
+        never-reassigned bool locals resolved, and conjunctions (disjunctions known false) split into their operands."""
+        out = []
+        todo = [(self.resolve_cond(c), t) for c, t in self._guards(n)]
+        for a, slot in self.ancestors(n):
+            if a.get('k') in ('while', 'for') and slot in ('body', 'inc') and a.get('c') is not None:
+                todo.append((self.resolve_cond(a['c']), True))
+        while todo:
+            c, t = todo.pop(0)
+            out.append((c, t))
+            x, neg, depth = c, False, 0
+            while isinstance(x, dict) and depth < 8:
+                depth += 1
+                if x.get('k') == 'cast' and isinstance(x.get('sub'), dict):
+                    x = x['sub']
+                elif x.get('k') == 'call' and callee(x) == '__builtin_expect' and x.get('args'):
+                    x = x['args'][0]
+                elif x.get('k') == 'un' and x.get('op') == '!':
+                    neg = not neg
+                    x = x.get('sub')
+                elif x.get('k') == 'paren' and isinstance(x.get('sub'), dict):
+                    x = x['sub']
+                else:
+                    break
+            if isinstance(x, dict) and x.get('k') == 'bin' and x.get('op') in ('&&', '||'):
+                eff = t != neg
+                if (x['op'] == '&&' and eff) or (x['op'] == '||' and not eff):
+                    todo.append((x.get('lhs'), eff))
+                    todo.append((x.get('rhs'), eff))
+        return out
 
     def _guards(self, n):
         """Control-dependence (structured): list of (condition node, truth) for the if/ternary/&&/||
